@@ -227,6 +227,9 @@ def run(repo: Repo, rep: Report, tier: str) -> None:
     from .memo import memo_rule
 
     memo_rule(repo, rep, "C10.R10")
+    from .c07 import context_rule
+
+    context_rule(repo, rep, "C10.R11")
 def unary_marking_rule(repo: Repo, rep: Report, rid: str, max_len: int) -> None:
     rep.rule(rid, f"unary-minus marking, bounded-exhaustive: Expression._mark_unary_minus interpreted on every token list up to length {max_len} over "
                   "{-, ~, (, ), number, +, <<} marks a '-' as unary exactly when it starts the list or follows '(' or an operator (a '-' just marked "
